@@ -177,7 +177,7 @@ def run_case(case):
             exp = expected_str(s) if s.lstrip("-").isdigit() and not s.startswith("-") else expected(raw)
         if route == "cli" and (s.startswith("-") and not re.fullmatch(r"-[0-9]+", s)):
             route = "norm"
-        if route == "config" and (s != s.strip() or "\n" in s or "\r" in s or "%" in s or s == "" or s[:1] in "#;" or any(ord(c) < 32 for c in s)
+        if route == "config" and (s != s.strip() or "\n" in s or "\r" in s or s == "" or s[:1] in "#;" or any(ord(c) < 32 for c in s)
                                   or "=" in s or ":" in s):
             route = "norm"
     if raw == "":
